@@ -101,6 +101,28 @@ WideForms(c) == << Cp("-name a") \o <<c>> \o Cp("b"), Cp("-name ") \o <<c>>, Cp(
                    Cp("-fprint o") \o <<c>> \o Cp("b"), Cp("-printf %p") \o <<c>> \o Cp("%s\\n"), Cp("-xattr-match n") \o <<c>> \o Cp(" v") \o <<c>>,
                    Cp("-pool ") \o <<c>> \o Cp("p"), Cp("-true") \o <<c>>, Cp("-uid 5") \o <<c>>, <<c>>, Cp("-name a ") \o <<c>> \o Cp(" -print"),
                    Cp("-true ") \o <<c>> \o Cp("-false"), Cp("( -name a") \o <<c>> \o Cp(" )") >>
+\* words of GNU find (and a few look-alikes) that are NOT in the vocabulary of this crate: each is an unknown word,
+\* whatever it means elsewhere -- alone, in front of an argument, and behind a primary
+ForeignWords == << Cp("-daystart"), Cp("-noleaf"), Cp("-nowarn"), Cp("-warn"), Cp("-follow"), Cp("-mount"), Cp("-ignore_readdir_race"),
+                   Cp("-noignore_readdir_race"), Cp("-regextype"), Cp("-newer"), Cp("-newermt"), Cp("-neweraa"), Cp("-exec"), Cp("-execdir"),
+                   Cp("-ok"), Cp("-okdir"), Cp("-delete"), Cp("-context"), Cp("-used"), Cp("-wholename"), Cp("-iwholename"), Cp("-links2"),
+                   Cp("-help"), Cp("--help"), Cp("-version"), Cp("-L"), Cp("-H"), Cp("-P"), Cp("-D"), Cp("-O3"), Cp("-E"), Cp("-X"), Cp("-d"),
+                   Cp("-not"), Cp("-false2"), Cp("-empty1"), Cp("-xtype"), Cp("-perm+"), Cp("-cnewer2"), Cp("-min"), Cp("-time"), Cp("-size+"),
+                   Cp("-print1"), Cp("-printx"), Cp("-fprint1"), Cp("-lsx"), Cp("-files0-from"), Cp("-maxdepth0"), Cp("-and2"), Cp("-or2") >>
+\* pairs of characters that look like quotes but are not quotes of the expression language
+QuotePairs == << <<8220, 8221>>, <<8216, 8217>>, <<171, 187>>, <<8249, 8250>>, <<8222, 8220>>, <<96, 96>>, <<180, 180>>, <<12300, 12301>>, <<8218, 8216>> >>
+EmitForeign ==
+  vSeq = <<>> =>
+    /\ \A w \in 1..Len(ForeignWords) :
+         LET fw == ForeignWords[w] IN
+         \A txt \in {fw, fw \o Cp(" x"), Cp("-true ") \o fw, Cp("( ") \o fw \o Cp(" )"), fw \o Cp(" -mtime 0"), Cp("-name a -o ") \o fw \o Cp(" 5")} :
+           PrintT(ToJson([i |-> txt, e |-> ParseText(txt), tag |-> "C05"]))
+    /\ \A q \in 1..Len(QuotePairs) :
+         LET o == <<QuotePairs[q][1]>>  c == <<QuotePairs[q][2]>> IN
+         \A txt \in {Cp("-name ") \o o \o Cp("draft") \o c, Cp("-name ") \o o \o Cp("my draft") \o c \o Cp(" -print"),
+                      Cp("-perm ") \o o \o Cp("u+x") \o c, Cp("-printf ") \o o \o Cp("%p\\n") \o c, Cp("-fprint ") \o o \o Cp("a b") \o c,
+                      Cp("-path ") \o o \o Cp("x") \o c \o Cp(" -o -name ") \o o \o c} :
+           PrintT(ToJson([i |-> txt, e |-> ParseText(txt), tag |-> "C05"]))
 EmitSweep ==
   vSeq = <<>> =>
     /\ \A c \in SweepChars : \A k \in 1..Len(SweepForms(c)) :
